@@ -351,6 +351,24 @@ macro_rules! dispatch {
     };
 }
 
+macro_rules! dispatch_spanned {
+    ($h:expr, $arg:expr) => {
+        match $h {
+            "HNone" => darling_core::util::SpannedValue::<HNone>::from_meta($arg).err(),
+            "HWord" => darling_core::util::SpannedValue::<HWord>::from_meta($arg).err(),
+            "HList" => darling_core::util::SpannedValue::<HList>::from_meta($arg).err(),
+            "HString" => darling_core::util::SpannedValue::<HString>::from_meta($arg).err(),
+            "HBool" => darling_core::util::SpannedValue::<HBool>::from_meta($arg).err(),
+            "HChar" => darling_core::util::SpannedValue::<HChar>::from_meta($arg).err(),
+            "HValue" => darling_core::util::SpannedValue::<HValue>::from_meta($arg).err(),
+            "HExpr" => darling_core::util::SpannedValue::<HExpr>::from_meta($arg).err(),
+            "HMeta" => darling_core::util::SpannedValue::<HMeta>::from_meta($arg).err(),
+            "HAll" => darling_core::util::SpannedValue::<HAll>::from_meta($arg).err(),
+            _ => unreachable!(),
+        }
+    };
+}
+
 fn expect_span(h: &str, entry: &str, src: &str, e: Option<Error>, region: (usize, usize), region_name: &str) -> Result<(), Fail> {
     let e = match e {
         Some(e) => e,
@@ -496,6 +514,17 @@ pub fn check_hooks_bytes(ctx: &Ctx, bytes: &Vec<u8>) -> Result<(), Fail> {
                         expect_span(h, "from_meta", &src, e, region, name)
                     },
                 )?;
+                // entry 3b: the same through `SpannedValue<H>` - a wrapper that records where a value stood must not move
+                // where an error points: the same region, and an implementer's unspanned `from_meta` error gets the item's span
+                run_hook(
+                    "SpannedValue::from_meta",
+                    &src,
+                    |h| catch(|| dispatch_spanned!(h, m)),
+                    |h, e| {
+                        let (region, name) = region_of(if h == "HMeta" { "HExpr" } else { h }, m);
+                        expect_span(h, "SpannedValue::from_meta", &src, e, region, name)
+                    },
+                )?;
                 if let syn::Meta::NameValue(nv) = m {
                     // entry 4: from_expr on the value
                     let vr = range(nv.value.span());
@@ -550,7 +579,7 @@ pub fn run(args: &Args) -> bool {
     }
     if want("hooks") {
         let ctx = Ctx::new("C03", "hooks", vmodel::ev::mix_seed(args.seed, "C03", "hooks", args.shard), args);
-        ctx.set_rule("ten FromMeta implementors overriding one hook each (none, word, list, string, bool, char, value, expr, meta, all leaf hooks) with an error that carries no span, driven through from_nested_meta / from_meta / from_expr / from_value on every item of arbitrary generated meta lists (evaluations = hook x entry x item): the error carries an explicit span inside the value for name-value items (inside the item when from_expr/from_meta itself is the override) and inside the item otherwise. Non-trivial: the list has a literal or a name-value item; distinct by source");
+        ctx.set_rule("ten FromMeta implementors overriding one hook each (none, word, list, string, bool, char, value, expr, meta, all leaf hooks) with an error that carries no span, driven through from_nested_meta / from_meta / from_expr / from_value - and from_meta of `SpannedValue<implementor>` - on every item of arbitrary generated meta lists (evaluations = hook x entry x item): the error carries an explicit span inside the value for name-value items (inside the item when from_expr/from_meta itself is the override) and inside the item otherwise. Non-trivial: the list has a literal or a name-value item; distinct by source");
         if let Some((_, case)) = &replay {
             let b: Vec<u8> = serde_json::from_value(case.clone()).expect("bad replay");
             ok &= run_list(&ctx, vec![b], check_hooks_bytes);
